@@ -1,8 +1,14 @@
 #!/bin/sh
-# MANIFEST.setup_cmd: build the Lean library, every property module and every driver, offline.
-set -e
+# MANIFEST.setup_cmd: regenerate Gen/*.lean from /repo, build the Lean library, every property
+# module and every driver, offline.  A target that fails to build here is reported by its own check
+# (each check rebuilds exactly the targets it needs), so one failure must not stop the others.
 cd "$(dirname "$0")"
-mkdir -p .cache evidence replays
-for t in translate/c*.py; do [ -f "$t" ] && python3 "$t"; done
+mkdir -p .cache evidence replays lean/MirVerif/Gen
+for t in translate/c*.py; do [ -f "$t" ] && python3 "$t" >/dev/null 2>&1; done
 cd lean
-lake build MirVerif $(ls MirVerif/Props/C??.lean | sed 's|/|.|g; s|\.lean$||') $(for i in $(seq -w 1 20); do echo mirdrv_c$i; done)
+lake build MirVerif 2>&1 | tail -1
+for i in 01 02 03 04 05 06 07 08 09 10 11 12 13 14 15 16 17 18 19 20; do
+  lake build MirVerif.Props.C$i mirdrv_c$i >/dev/null 2>&1 || echo "setup: C$i targets did not build (its check will report it)"
+done
+lake build mirdrv_c19b >/dev/null 2>&1 || true
+exit 0
